@@ -238,64 +238,90 @@ input_merge_heap!(c14_in_merge_pegin_claim_script_onesided, c14_in_merge_pegin_c
 //@ clause: Input::merge: identical pegin_witness in both operands merges to that value
 input_merge_heap!(c14_in_merge_pegin_witness_onesided, c14_in_merge_pegin_witness_identical, pegin_witness, wit1());
 
-// ---- BTreeMap fields: one entry per operand, identical or disjoint ----
+// ---- BTreeMap fields: one entry per operand ----
 // Oracle (property text): the result contains every entry of either operand, nothing else, in both merge orders.
+// Measured: with fully symbolic keys (symbolic relative order => symbolic B-tree slot positions for the heap-owning
+// values) the harness does not finish in 15 min.  So the *leading* key byte is concrete and different in the two
+// operands (the order of the two keys is then concrete; merging in both directions exercises both insertion orders),
+// every other key byte and the values are symbolic.  `*_identical`: both operands hold the same entry.
 macro_rules! input_merge_map {
-    ($name:ident, $field:ident, $mkk:expr, $mkv:expr) => {
+    ($dis:ident, $ident:ident, $field:ident, $mkk:expr, $mkv:expr) => {
         #[kani::proof]
-        fn $name() {
-            let k1 = $mkk; let v1: Vec<u8> = $mkv;
-            let k2 = $mkk; let v2: Vec<u8> = $mkv;
-            let same = k1 == k2;
-            // identical or disjoint additions
-            kani::assume(!same || v1 == v2);
+        fn $dis() {
+            let mk = $mkk;
+            let (k1, k2) = (mk(0x21u8), mk(0x7eu8));
+            let v1: Vec<u8> = $mkv; let v2: Vec<u8> = $mkv;
             let mut a1 = Input::default(); let mut b1 = Input::default();
             let mut a2 = Input::default(); let mut b2 = Input::default();
             a1.$field.insert(k1.clone(), v1.clone()); a2.$field.insert(k1.clone(), v1.clone());
             b1.$field.insert(k2.clone(), v2.clone()); b2.$field.insert(k2.clone(), v2.clone());
-            kani::cover!(same);
-            kani::cover!(!same);
             match a1.merge(b1) { Ok(()) => {}, Err(e) => { fgt(e); assert!(false, "merge of conflict-free operands failed"); } }
             match b2.merge(a2) { Ok(()) => {}, Err(e) => { fgt(e); assert!(false, "merge of conflict-free operands failed"); } }
-            let want_len = if same { 1 } else { 2 };
-            assert!(a1.$field.len() == want_len && b2.$field.len() == want_len, "union has exactly the entries of both operands");
+            kani::cover!(true);
+            assert!(a1.$field.len() == 2 && b2.$field.len() == 2, "union has exactly the entries of both operands");
             assert!(a1.$field.get(&k1) == Some(&v1) && a1.$field.get(&k2) == Some(&v2), "merge(a,b) holds both entries");
             assert!(b2.$field.get(&k1) == Some(&v1) && b2.$field.get(&k2) == Some(&v2), "merge(b,a) holds both entries");
             fgt(a1); fgt(b2);
         }
+        #[kani::proof]
+        fn $ident() {
+            let mk = $mkk;
+            let k1 = mk(kani::any());
+            let v1: Vec<u8> = $mkv;
+            let mut a1 = Input::default(); let mut b1 = Input::default();
+            a1.$field.insert(k1.clone(), v1.clone());
+            b1.$field.insert(k1.clone(), v1.clone());
+            match a1.merge(b1) { Ok(()) => {}, Err(e) => { fgt(e); assert!(false, "merge of identical additions failed"); } }
+            kani::cover!(true);
+            assert!(a1.$field.len() == 1 && a1.$field.get(&k1) == Some(&v1), "identical entries merge to one");
+            fgt(a1);
+        }
     };
 }
-fn raw_key1() -> raw::Key {
+fn raw_key1(t: u8) -> raw::Key {
     let b: [u8; 1] = kani::any();
-    raw::Key { type_value: kani::any(), key: b.to_vec() }
+    raw::Key { type_value: t, key: b.to_vec() }
 }
-fn prop_key1() -> raw::ProprietaryKey {
-    let p: [u8; 1] = kani::any();
+fn prop_key1(p0: u8) -> raw::ProprietaryKey {
     let k: [u8; 1] = kani::any();
-    raw::ProprietaryKey { prefix: p.to_vec(), subtype: kani::any(), key: k.to_vec() }
+    raw::ProprietaryKey { prefix: vec![p0], subtype: kani::any(), key: k.to_vec() }
 }
 fn val1() -> Vec<u8> {
     let b: [u8; 1] = kani::any();
     b.to_vec()
 }
-//@ harness: c14_in_merge_unknown class=B tier=quick bound="one entry per operand; key = symbolic type byte + 1 symbolic key byte; 1-byte values"
-//@ clause: Input::merge: the `unknown` pairs of the result are the union of the operands' unknown pairs, in both merge orders
-input_merge_map!(c14_in_merge_unknown, unknown, raw_key1(), val1());
-//@ harness: c14_in_merge_proprietary class=B tier=quick bound="one entry per operand; 1-byte prefix, symbolic subtype, 1-byte key; 1-byte values"
-//@ clause: Input::merge: the proprietary pairs of the result are the union of the operands' proprietary pairs, in both merge orders
-input_merge_map!(c14_in_merge_proprietary, proprietary, prop_key1(), val1());
-//@ harness: c14_in_merge_ripemd160_preimages class=B tier=thorough bound="one entry per operand; symbolic 20-byte hash keys (hash/preimage relation not required by merge); 1-byte values"
-//@ clause: Input::merge: RIPEMD160 preimages of the result are the union, in both merge orders
-input_merge_map!(c14_in_merge_ripemd160_preimages, ripemd160_preimages, ripemd160::Hash::from_byte_array(kani::any()), val1());
-//@ harness: c14_in_merge_sha256_preimages class=B tier=quick bound="one entry per operand; symbolic 32-byte hash keys; 1-byte values"
-//@ clause: Input::merge: SHA256 preimages of the result are the union, in both merge orders
-input_merge_map!(c14_in_merge_sha256_preimages, sha256_preimages, sha256::Hash::from_byte_array(kani::any()), val1());
-//@ harness: c14_in_merge_hash160_preimages class=B tier=thorough bound="one entry per operand; symbolic 20-byte hash keys; 1-byte values"
-//@ clause: Input::merge: HASH160 preimages of the result are the union, in both merge orders
-input_merge_map!(c14_in_merge_hash160_preimages, hash160_preimages, hash160::Hash::from_byte_array(kani::any()), val1());
-//@ harness: c14_in_merge_hash256_preimages class=B tier=thorough bound="one entry per operand; symbolic 32-byte hash keys; 1-byte values"
-//@ clause: Input::merge: HASH256 preimages of the result are the union, in both merge orders
-input_merge_map!(c14_in_merge_hash256_preimages, hash256_preimages, sha256d::Hash::from_byte_array(kani::any()), val1());
+fn arr20(lead: u8) -> [u8; 20] { let mut a: [u8; 20] = kani::any(); a[0] = lead; a }
+fn arr32(lead: u8) -> [u8; 32] { let mut a: [u8; 32] = kani::any(); a[0] = lead; a }
+//@ harness: c14_in_merge_unknown_disjoint class=B tier=quick bound="one entry per operand; key = type byte (0x21 / 0x7e in the disjoint case, symbolic in the identical case) + 1 symbolic key byte; 1-byte values"
+//@ clause: Input::merge: the `unknown` pairs of the result are the union of the operands' entries (disjoint keys), in both merge orders
+//@ harness: c14_in_merge_unknown_identical class=B tier=thorough bound="the same single entry in both operands"
+//@ clause: Input::merge: an identical entry of the `unknown` pairs in both operands appears once in the result
+input_merge_map!(c14_in_merge_unknown_disjoint, c14_in_merge_unknown_identical, unknown, raw_key1, val1());
+//@ harness: c14_in_merge_proprietary_disjoint class=B tier=quick bound="one entry per operand; 1-byte prefix (concrete, different per operand), symbolic subtype, 1 symbolic key byte; 1-byte values"
+//@ clause: Input::merge: the proprietary pairs of the result are the union of the operands' entries (disjoint keys), in both merge orders
+//@ harness: c14_in_merge_proprietary_identical class=B tier=thorough bound="the same single entry in both operands"
+//@ clause: Input::merge: an identical entry of the proprietary pairs in both operands appears once in the result
+input_merge_map!(c14_in_merge_proprietary_disjoint, c14_in_merge_proprietary_identical, proprietary, prop_key1, val1());
+//@ harness: c14_in_merge_ripemd160_preimages_disjoint class=B tier=thorough bound="one entry per operand; 20-byte hash keys, first byte concrete, rest symbolic (merge does not check the hash/preimage relation); 1-byte values"
+//@ clause: Input::merge: RIPEMD160 preimages of the result are the union of the operands' entries (disjoint keys), in both merge orders
+//@ harness: c14_in_merge_ripemd160_preimages_identical class=B tier=thorough bound="the same single entry in both operands"
+//@ clause: Input::merge: an identical entry of RIPEMD160 preimages in both operands appears once in the result
+input_merge_map!(c14_in_merge_ripemd160_preimages_disjoint, c14_in_merge_ripemd160_preimages_identical, ripemd160_preimages, |l| ripemd160::Hash::from_byte_array(arr20(l)), val1());
+//@ harness: c14_in_merge_sha256_preimages_disjoint class=B tier=quick bound="one entry per operand; 32-byte hash keys, first byte concrete, rest symbolic; 1-byte values"
+//@ clause: Input::merge: SHA256 preimages of the result are the union of the operands' entries (disjoint keys), in both merge orders
+//@ harness: c14_in_merge_sha256_preimages_identical class=B tier=thorough bound="the same single entry in both operands"
+//@ clause: Input::merge: an identical entry of SHA256 preimages in both operands appears once in the result
+input_merge_map!(c14_in_merge_sha256_preimages_disjoint, c14_in_merge_sha256_preimages_identical, sha256_preimages, |l| sha256::Hash::from_byte_array(arr32(l)), val1());
+//@ harness: c14_in_merge_hash160_preimages_disjoint class=B tier=thorough bound="one entry per operand; 20-byte hash keys, first byte concrete, rest symbolic; 1-byte values"
+//@ clause: Input::merge: HASH160 preimages of the result are the union of the operands' entries (disjoint keys), in both merge orders
+//@ harness: c14_in_merge_hash160_preimages_identical class=B tier=thorough bound="the same single entry in both operands"
+//@ clause: Input::merge: an identical entry of HASH160 preimages in both operands appears once in the result
+input_merge_map!(c14_in_merge_hash160_preimages_disjoint, c14_in_merge_hash160_preimages_identical, hash160_preimages, |l| hash160::Hash::from_byte_array(arr20(l)), val1());
+//@ harness: c14_in_merge_hash256_preimages_disjoint class=B tier=thorough bound="one entry per operand; 32-byte hash keys, first byte concrete, rest symbolic; 1-byte values"
+//@ clause: Input::merge: HASH256 preimages of the result are the union of the operands' entries (disjoint keys), in both merge orders
+//@ harness: c14_in_merge_hash256_preimages_identical class=B tier=thorough bound="the same single entry in both operands"
+//@ clause: Input::merge: an identical entry of HASH256 preimages in both operands appears once in the result
+input_merge_map!(c14_in_merge_hash256_preimages_disjoint, c14_in_merge_hash256_preimages_identical, hash256_preimages, |l| sha256d::Hash::from_byte_array(arr32(l)), val1());
 
 // ---- interaction of the two UTXO fields (candidate disagreement found while reading Input::merge) ----
 //@ harness: c14_in_merge_utxo_pair_order class=B tier=quick bound="non_witness_utxo = empty transaction with symbolic version/lock time; witness_utxo = explicit TxOut"
